@@ -88,6 +88,14 @@ func body(b string) string {
 		return "let a: AnyStruct = n; if let v = a as? Int { n = v + 1 }"
 	case "ref":
 		return "let r = &xs as &[Int]; n = n + r.length"
+	case "optchain-nil":
+		return "let q: Q? = nil; let t = q?.touch(); if t != nil { n = n + 1 }"
+	case "optchain-some":
+		return "let q: Q? = Q(); n = n + (q?.touch() ?? 0)"
+	case "bound-call":
+		return "let bf = Q().touch; n = n + bf()"
+	case "skipped-call":
+		return "if n < 0 && helper(n) > 0 { n = n + 1 }"
 	}
 	panic("body " + b)
 }
@@ -96,6 +104,7 @@ const locals = `var n = 0; var s = ""; let xs: [Int] = []; let d: {Int: Int} = {
 const prelude = `import E from 0x1
 access(all) resource R {}
 access(all) fun helper(_ x: Int): Int { return x + 1 }
+access(all) struct Q { access(all) view fun touch(): Int { return 1 } }
 `
 
 func render(sh Shape) string {
@@ -165,6 +174,8 @@ func pureBody(b string) string {
 		return "let o: Int? = n; if let v = o { n = v + 1 }"
 	case "cast":
 		return "let a: AnyStruct = n; if let v = a as? Int { n = v + 1 }"
+	case "optchain-nil":
+		return "let q: Q? = nil; let t = q?.touch(); if t != nil { n = n + 1 }"
 	}
 	return ""
 }
@@ -175,14 +186,14 @@ func (e limitErr) Error() string { return e.what + " limit exceeded" }
 
 // recorder implements both gauges with limits and records the stream in run-length form.
 type recorder struct {
-	mu                 sync.Mutex
-	compLim, memLim    uint64
-	compUsed, memUsed  uint64
-	tripped            bool
-	trace              []Ev
-	curN               int
-	curSum             uint64
-	after              int
+	mu                sync.Mutex
+	compLim, memLim   uint64
+	compUsed, memUsed uint64
+	tripped           bool
+	trace             []Ev
+	curN              int
+	curSum            uint64
+	after             int
 }
 
 func (r *recorder) flush() {
